@@ -376,6 +376,16 @@ def _w_grp_edit(self, op):
     return core.call(l.rm_last_item)
 
 
+def _w_add_many(self, op):
+    """several lines added in one step (one observation); the outcome is that of the first failure"""
+    for ln in op["lines"]:
+        o = core.call(self.gfa.add_line, ln)
+        if not o.ok:
+            return o
+    return core.Outcome(True, len(op["lines"]))
+
+
+World.do_add_many = _w_add_many
 World.do_grp_edit = _w_grp_edit
 World.do_hold = _w_hold
 World.do_held_call = _w_held_call
